@@ -43,6 +43,8 @@ VARIANTS = [
 '''),
     dict(id="c19-aggregates-input-frame", property="C19", kind="break", expect_rule="R19.1", file=B,
          old='observed = df_res["observed"].resample(agg).sum()', new='observed = df["observed"].resample(agg).sum()'),
+    dict(id="c19-unc-linalg-norm-propagates-nan", property="C19", kind="break", expect_rule="R19.1", file=B,
+         old="sum_quad = lambda x: np.sqrt(np.sum(np.square(x)))", new="sum_quad = np.linalg.norm"),
     dict(id="c19-benign-rss-spelling", property="C19", kind="benign", file=B,
          old="sum_quad = lambda x: np.sqrt(np.sum(np.square(x)))", new="sum_quad = lambda v: (v ** 2).sum() ** 0.5"),
     dict(id="c19-benign-agg-string", property="C19", kind="benign", file=B,
